@@ -18,6 +18,7 @@ PROPS = {
     "C10": ("p_pos", "check_c10"),
     "C11": ("p_server", "check_c11"),
     "C12": ("p_server", "check_c12"),
+    "C15": ("p_preproc", "check_c15"),
     "C17": ("p_analysis", "check_c17"),
 }
 
